@@ -1070,7 +1070,7 @@ static ConstQueryFilterRef CreateQueryFilterFromExpressionAux(Lexer & lexer, con
          const LexerToken & fieldNameTok = localToks[1];
          MRETURN_ON_ERROR(fieldNameTok.ParseFieldName(fieldName, valueIndexInField, NULL));
 
-         return MaybeNegate(isNegated, sef.CreateSubexpression(fieldNameTok, valueIndexInField, firstTok, LexerToken(), explicitCastType, LexerToken(), true));
+         return MaybeNegate(isNegated, sef.CreateSubexpression(LexerToken(fieldName, fieldNameTok.WasQuoted()), valueIndexInField, firstTok, LexerToken(), explicitCastType, LexerToken(), true));
       }
       break;
 
@@ -1088,7 +1088,9 @@ static ConstQueryFilterRef CreateQueryFilterFromExpressionAux(Lexer & lexer, con
          const uint32 valueType = valTok.GetValueStringType(explicitCastType);
          if (valueType == B_ANY_TYPE) return B_ERROR("Unable to determine type of value-token at end of subexpression");
 
-         return MaybeNegate(isNegated, sef.CreateSubexpression(fieldNameTok, valueIndexInField, infixOpTok, valTok, valueType, optDefaultValue, true));
+         // hand the factory the bare field name, without the :index and |default suffixes we just parsed out of it
+         const LexerToken nameTok = (fieldNameTok.GetToken() == LTOKEN_WHAT) ? fieldNameTok : LexerToken(fieldName, fieldNameTok.WasQuoted());
+         return MaybeNegate(isNegated, sef.CreateSubexpression(nameTok, valueIndexInField, infixOpTok, valTok, valueType, optDefaultValue, true));
       }
    }
 
